@@ -106,6 +106,40 @@ func VerifH_C19_B_layering() {
 		}
 	}
 	vz.Cover("layered")
+	// a later load reflects the sources as they are then: when the highest layer stops
+	// setting a key, the next lower value comes back (nothing sticks between loads)
+	top := -1
+	for i := len(loaders) - 1; i >= 0; i-- {
+		if _, ok := loaders[i].cfg["a"]; ok {
+			top = i
+			break
+		}
+	}
+	if top >= 0 {
+		newCfg := Config{}
+		for k, v := range loaders[top].cfg {
+			if k != "a" {
+				newCfg[k] = v
+			}
+		}
+		loaders[top].cfg = newCfg
+		res2, err := m.loadConfig(configv1alpha1.JobExecutionConfigName)
+		vz.Assert(err == nil, "C19/B/second-load-succeeds")
+		below := -1
+		for i := top - 1; i >= 0; i-- {
+			if _, ok := loaders[i].cfg["a"]; ok {
+				below = i
+				break
+			}
+		}
+		got, ok := res2["a"]
+		if below < 0 {
+			vz.Assert(!ok, "C19/B/removed-override-does-not-stick")
+		} else {
+			vz.Assert(ok && got == loaders[below].cfg["a"], "C19/B/removed-override-falls-back-to-lower-layer")
+		}
+		vz.Cover("override-removed")
+	}
 }
 
 // VerifH_C19_C_configmap: a ConfigMap update replaces the loader's view only if
